@@ -51,7 +51,27 @@ fn viol_json(v: &exec::Violation) -> serde_json::Value {
     json!({"tag": v.tag, "props": v.props, "detail": v.detail})
 }
 
+/// Re-exec with ASLR disabled: the arm variant embeds the (host) address of its boolean helper
+/// functions in the bytes it writes, so the event log must not depend on where the image lands.
+fn ensure_no_aslr() {
+    const ADDR_NO_RANDOMIZE: libc::c_ulong = 0x0040000;
+    unsafe {
+        let cur = libc::personality(0xffff_ffff);
+        if cur >= 0 && (cur as libc::c_ulong) & ADDR_NO_RANDOMIZE == 0 {
+            if libc::personality(cur as libc::c_ulong | ADDR_NO_RANDOMIZE) < 0 {
+                return;
+            }
+            let exe = std::ffi::CString::new("/proc/self/exe").unwrap();
+            let args: Vec<std::ffi::CString> = std::env::args().map(|a| std::ffi::CString::new(a).unwrap()).collect();
+            let mut ptrs: Vec<*const libc::c_char> = args.iter().map(|a| a.as_ptr()).collect();
+            ptrs.push(std::ptr::null());
+            libc::execv(exe.as_ptr(), ptrs.as_ptr());
+        }
+    }
+}
+
 fn main() {
+    ensure_no_aslr();
     let args: Vec<String> = std::env::args().collect();
     std::panic::set_hook(Box::new(|_| {}));
     check_host_layout();
